@@ -46,3 +46,21 @@ prop("C14",
           "harvests reply, expiry and disconnects together on a virtual clock; non-trivial: a timer was armed and the request was resolved by reply or expiry; distinct by trace hash",
      nontrivial=[["timer_armed", "timed_out"], ["timer_armed", "owner_replied"]],
      required_probes=["timed_out", "owner_replied", "timer_and_io_same_batch", "timer_and_disconnect_same_batch", "timeout_precedence:request", "timeout_precedence:element", "timeout_precedence:default", "timeout_refused", "expiry_after_resolution"])
+
+prop("C02",
+     mix=[("c02", "default", 3), ("c02", "small", 1), ("base", "default", 1), ("base", "batch1", 0.5)],
+     quick_mix=[("c02", "default", 2), ("base", "default", 1)],
+     quick_s=25, thorough_s=600,
+     rule="(a) hostile JSON-RPC shapes (every method name, missing/mistyped/duplicated members, ids of every JSON type, batches, response objects as requests) checked by a per-connection ledger of outstanding ids; "
+          "(b) well-formed traffic checked frame by frame against the reference model, where a batch must behave like its members sent one by one. non-trivial: >=3 requests with id answered; distinct by trace hash",
+     nontrivial=[["ledger_response>=3"], ["batch_len>=3"]],
+     required_probes=["ledger_response", "no_id_request", "response_as_request", "id_fraction", "id_beyond_int", "batch_len>=3", "routed_seen_by_owner"])
+
+prop("C06",
+     mix=[("c06", "default", 3), ("c06", "small", 2), ("c02", "default", 1), ("c06", "batch1", 1)],
+     quick_mix=[("c06", "default", 2), ("c06", "small", 1)],
+     quick_s=25, thorough_s=600,
+     rule="structured hostile input (JSON-RPC member shapes, long names, HTTP request lines and headers, WebSocket frames over the whole header space, length prefixes around every limit) and unstructured bytes on all three "
+          "endpoints under random segmentation, read caps and event batching; oracle: no sanitizer report, no crash, no hang, descriptor hygiene, canary served afterwards. non-trivial: >=1 message reached the dispatcher or frame parser; distinct by trace hash",
+     nontrivial=[["ledger_request"], ["ws_upgraded"], ["drop:length prefix above the maximum"]],
+     required_probes=["ws_upgraded", "drop:length prefix above the maximum", "drop:websocket payload above the maximum", "canary_ok", "short_read", "multi_message_read"])
